@@ -12,9 +12,9 @@ def run(ctx):
     editcheck.run_histories(ctx, ORACLES, 60 if quick else 3000, tag="big", fft="big")
     editcheck.run_histories(ctx, ORACLES, 16 if quick else 600, tag="fft", fft=True)
     editcheck.run_workloads(ctx, ORACLES, 96 if quick else 3000)
-    ctx.cov["rule"] = ("seeded edit histories (placement of 1-8 data points, then 0-30 moves: data-point move, prune-regraft, subtree "
+    ctx.cov["rule"] = ("seeded edit histories (placement of 1-8, in a separate batch 12-60, data points, 1-3 samples optionally at levels hundreds of nats apart, concentration 1e-10..1e7, then 0-60 moves: data-point move, prune-regraft, subtree "
                        "replacement, relabel) with persistence faults at random steps; after every applied operation every clone's "
-                       "log_p/log_r, the virtual root's log_r and both joint densities are compared with a tree rebuilt from scratch "
+                       "log_p/log_r, the virtual root's log_r and both joint densities are compared with a tree rebuilt from scratch with memoisation bypassed "
                        "from the reference forest (1e-8 + 1e-9|x|); plus real sampler chains with the Tree monitor rebuilding at a "
                        "sampled quarter of outermost Tree calls; non-trivial = histories with >= 3 applied operations / chains with > 20 monitored calls")
     ctx.cov["components"] = {"real": ["phyclone.tree.Tree / TreeNode / visitors", "TreeJointDistribution", "TreeHolder (persist.holder)",
